@@ -117,10 +117,10 @@ def gen_counted_script(rng, name, max_ops=30):
             lines.append("do append %d %d" % (l, rng.choice(plain)))
         elif r < 0.5:
             lines.append("do remove %d %d" % (l, rng.randint(0, 10)))
-        elif r < 0.9:
-            lines.append("do invoke %d %d" % (l, rng.randint(0, 9)))
         else:
-            lines.append("do enum %d %d" % (l, rng.randint(0, 9)))
+            # (no forEach enumeration here: the machines number a callback's calls including enumeration visits,
+            #  the real wrapper counts only invocations; enumerations are exercised by the other profiles)
+            lines.append("do invoke %d %d" % (l, rng.randint(0, 9)))
     for l in range(nl):
         lines.append("do invoke %d 0" % l)
         lines.append("do invoke %d 1" % l)
